@@ -7,7 +7,8 @@ EXTENDS OsmApi, IOUtils, Json
 N    == atoi(IOEnv.N)
 Seed == atoi(IOEnv.SEED) % 1000
 
-CallSeq == SetToSeq(Calls)
+\* enumerated with ctx = "bg"; one case in seven is then made with a caller-supplied deadline instead (control)
+CallSeq == SetToSeq(CallsVia(Vias, {"bg"}))
 NC      == Len(CallSeq)
 Primes  == <<7919, 7907, 7901, 7883, 7879, 7877>>
 Stride  == Primes[CHOOSE k \in DOMAIN Primes : NC % Primes[k] # 0 /\ \A j \in 1 .. k - 1 : NC % Primes[j] = 0]
@@ -16,13 +17,21 @@ Stride  == Primes[CHOOSE k \in DOMAIN Primes : NC % Primes[k] # 0 /\ \A j \in 1 
 Non200    == SetToSeq(Statuses \ {200})
 StatusSeq == FlattenSeq([i \in DOMAIN Non200 |-> <<200, Non200[i]>>])
 
+\* most answers are delivered plainly; 4 of 32 large, 2 of 32 in two pieces, 1 of 32 both
+DelivSeq == [k \in 1 .. 32 |-> CASE k % 8 = 3  -> Deliv(256, FALSE)
+                                  [] k \in {6, 22} -> Deliv(0, TRUE)
+                                  [] k = 14      -> Deliv(256, TRUE)
+                                  [] OTHER       -> Plain]
+
 Case(i) ==
-  LET cc == CallSeq[((i * Stride + Seed * 31) % NC) + 1]
+  LET c0 == CallSeq[((i * Stride + Seed * 31) % NC) + 1]
+      cc == IF (i + Seed) % 7 = 3 THEN [c0 EXCEPT !.ctx = "deadline"] ELSE c0
       h  == i * 9973 + Seed * 104729 + (i \div NC)
       st == StatusSeq[(h % Len(StatusSeq)) + 1]
       sh == Shapes[((h \div Len(StatusSeq)) % Len(Shapes)) + 1]
       ok == IF cc.lim = "set" THEN ((h \div 7) % 4) # 0 ELSE TRUE
-  IN  cc @@ [limok |-> ok, status |-> st, shape |-> sh, body |-> Body(cc.ep, sh)]
+      d  == DelivSeq[((h \div 11) % Len(DelivSeq)) + 1]
+  IN  cc @@ [limok |-> ok, status |-> st, shape |-> sh, body |-> Body(cc.ep, sh, d)]
 
 ASSUME ndJsonSerialize(IOEnv.OUT, [i \in 1 .. N |-> Case(i)])
 ASSUME PrintT(<<"GEN", N, NC, Stride>>)
